@@ -103,6 +103,10 @@ def gen_case(rnd, tier, index):
     # computed references as whole formulas (=OFFSET(..), =INDIRECT("..")): there are no writes
     # here, so the dependency tracking they lack does not matter; the order of evaluation does
     knobs['computed_refs'] = wrnd.random() < 0.4
+    if wrnd.random() < 0.5:
+        # workbooks rich in forms whose value depends on the context they are evaluated in
+        # (inside / outside an array formula, the cell they stand in)
+        knobs.update(boost=0.15, p_cse=0.3, cse=True, ranges=True, iferr=True, gadget=0.6)
     spec = wbgen.generate(wrnd, knobs)
     dag = wbgen.Dag(spec)
     origin = wrnd.choice(('nodata', 'nodata', 'xlsx', 'xlsx', 'yml', 'json', 'pkl'))
@@ -132,7 +136,24 @@ def gen_case(rnd, tier, index):
     cand = [a for a in dag.order if a in universe]
     formulas = [a for a in cand if wbgen.is_formula_cell(dag.cell[a])]
     wrnd.shuffle(formulas)
+    # the interesting ones first: members of array formulas, cells an array formula reads,
+    # context-sensitive functions, position-dependent formulas
+    cse_reads = set()
+    for a in formulas:
+        if 'cse' in dag.cell[a]:
+            cse_reads.update(p for p in dag.cell[a].get('p', ()) if wbgen.is_formula_cell(dag.cell.get(p, {})))
+
+    def interest(a):
+        f = dag.cell[a].get('f', '')
+        return -int('cse' in dag.cell[a] or a in cse_reads or 'IFERROR' in f or 'IFNA' in f or
+                    'ROW()' in f or 'COLUMN()' in f)
+    if wrnd.random() < 0.7:
+        formulas.sort(key=interest)
     targets = formulas[:N_TARGETS]
+    if spec.get('gadget') and wrnd.random() < 0.7:
+        g = [a for a in spec['gadget'] if a in cand]
+        wrnd.shuffle(g)
+        targets = (g[:3] + [t for t in targets if t not in g])[:N_TARGETS]
     rest = [a for a in cand if a not in targets]
     wrnd.shuffle(rest)
     targets += rest[:N_TARGETS - len(targets)]
